@@ -53,12 +53,14 @@ fn single_observation(kind: u8) {
         _ => Observation::Repeated { total, occurrences: occ },
     };
     let unit_sel: u8 = kani::any();
-    kani::assume(unit_sel < 4);
+    kani::assume(unit_sel < 5);
     let unit = match unit_sel {
         0 => Unit::None,
         1 => Unit::Count,
         2 => Unit::Second(NegativeScale::Milli),
-        _ => Unit::Custom("x"),
+        3 => Unit::Custom("x"),
+        // a custom unit is arbitrary text: it must go through the JSON escaper like every other string
+        _ => Unit::Custom("\"\\"),
     };
     let flag_sel: u8 = kani::any();
     kani::assume(flag_sel < 3);
@@ -132,8 +134,10 @@ fn single_observation(kind: u8) {
             (1, _) => r#"{"Name":"m","Unit":"Count","StorageResolution":1}"#,
             (2, 0) => r#"{"Name":"m","Unit":"Milliseconds"}"#,
             (2, _) => r#"{"Name":"m","Unit":"Milliseconds","StorageResolution":1}"#,
-            (_, 0) => r#"{"Name":"m","Unit":"x"}"#,
-            (_, _) => r#"{"Name":"m","Unit":"x","StorageResolution":1}"#,
+            (3, 0) => r#"{"Name":"m","Unit":"x"}"#,
+            (3, _) => r#"{"Name":"m","Unit":"x","StorageResolution":1}"#,
+            (_, 0) => r#"{"Name":"m","Unit":"\"\\"}"#,
+            (_, _) => r#"{"Name":"m","Unit":"\"\\","StorageResolution":1}"#,
         };
         assert!(text_is(ms, mp, expected), "declaration carries exactly name, unit and storage resolution");
     }
@@ -142,7 +146,7 @@ fn single_observation(kind: u8) {
 emf_harness! {
 // @check C03 quick timeout=900 mem=14
 // @encodes emf::ValueWriter::write_metric, write_metric_value, write_observation, write_float, clamp_to_finite, MetricFlags::downcast, Unit::name, json_string
-// @bounds one Unsigned(any u64) observation; multiplicity None or Some(any u64); unit in {None, Count, Milliseconds, Custom("x")}; flags in {none, high-resolution, no-metric}
+// @bounds one Unsigned(any u64) observation; multiplicity None or Some(any u64); unit in {None, Count, Milliseconds, Custom("x"), Custom(quote backslash)}; flags in {none, high-resolution, no-metric}
 // @oracle recorded value == v, recorded count == multiplicity (list form iff sampled); declaration text equals the expected literal for (unit, flag), absent for no-metric
 // @stubs tracing x4, Instant::now, alloc::fmt::format, String::push/push_str/shrink_to, Vec::extend_from_slice, itoa::Buffer::format (recording), dtoa::Buffer::format_finite (recording)
 // @outside timestamp, namespace replication, dimension sets and split records (finish()/config(), behind hashbrown)
@@ -154,7 +158,7 @@ pub fn single_unsigned() {
 emf_harness! {
 // @check C03 quick timeout=900 mem=14
 // @encodes emf::ValueWriter::write_metric, write_metric_value, write_observation, write_float, clamp_to_finite
-// @bounds one Floating(any f64 incl. NaN, +-inf, subnormals); multiplicity None or Some(any u64); 4 units x 3 flags
+// @bounds one Floating(any f64 incl. NaN, +-inf, subnormals); multiplicity None or Some(any u64); 5 units x 3 flags
 // @oracle NaN => nothing written or declared; otherwise recorded value bit-equal to clamp(v) (+-inf -> +-f64::MAX), count == multiplicity
 // @stubs tracing x4, Instant::now, alloc::fmt::format, String::push/push_str/shrink_to, Vec::extend_from_slice, itoa::Buffer::format, dtoa::Buffer::format_finite
 pub fn single_floating() {
